@@ -36,7 +36,10 @@ _STATE_RE = re.compile(r"^State \d+:\s*$", re.M)
 
 
 def _tla_to_json(s):
-    return json.loads(s.replace("<<", "[").replace(">>", "]"))
+    s = s.replace("<<", "[").replace(">>", "]")
+    if "TRUE" in s or "FALSE" in s:
+        s = re.sub(r"\bTRUE\b", "true", re.sub(r"\bFALSE\b", "false", s))
+    return json.loads(s)
 
 
 def gen_family(f, workers=4, timeout=1500):
